@@ -31,7 +31,7 @@ use crate::{
 // ---------------------------------------------------------------------------------------------------------------
 // (a) op histories, Ristretto (the instantiation that owns the process-wide cells)
 
-pub const OPS: [&str; 22] = [
+pub const OPS: [&str; 23] = [
     "params(2,1)",
     "params(2,2)",
     "params(4,1)",
@@ -54,6 +54,7 @@ pub const OPS: [&str; 22] = [
     "batch-mixed-sizes-two-defects",
     "batch-inconsistent-bit-lengths",
     "verify-valid-under-other-context",
+    "batch-two-separately-built-params",
 ];
 
 fn short(s: &str) -> String {
@@ -159,12 +160,15 @@ fn run_op<P: G>(op: &str, kept: &mut Vec<RangeParameters<P>>) -> Vec<u8> {
                 Err(e) => format!("ERR:{}", crate::api::err_name(&e)).into_bytes(),
             }
         },
-        "batch-inconsistent-bit-lengths" => {
+        "batch-inconsistent-bit-lengths" | "batch-two-separately-built-params" => {
             // two members over separately built parameter sets that do NOT agree (bit lengths 2 and 4): the refusal, error text
-            // included, is the result -- whatever parameter objects earlier calls built, compared and dropped
+            // included, is the result -- whatever parameter objects earlier calls built, compared and dropped.
+            // The twin op runs the SAME statements (same allocation sizes in the same order, so that under the system allocator
+            // the objects of a following op land on the addresses its objects were freed from) over two separately built sets
+            // that DO agree: anything a batch remembers about "these two objects" is then stale for the next op (seed C18-N)
             let wa = Wit::default_for(&cfg_a);
             let ba = build::<P>(&cfg_a, &wa).honest();
-            let cfg_w = Cfg::new(4, 1, 1, 1);
+            let cfg_w = if op == "batch-inconsistent-bit-lengths" { Cfg::new(4, 1, 1, 1) } else { Cfg::new(2, 1, 1, 1) };
             let ww = Wit::default_for(&cfg_w);
             let bw = build::<P>(&cfg_w, &ww).honest();
             let pa = lib_prove_honest(&ba, &CTX_A, &mut HRng::chacha(4));
@@ -812,7 +816,7 @@ fn source_scan() -> Value {
 }
 
 pub fn run(rep: &mut Report) {
-    rep.rule = "(a) every sequence over the 22-op alphabet {the valid pair verified under a transcript it was not made under, a batch over two parameter sets that disagree on the bit length (the error text is the result), a batch of two aggregation sizes with two different defects (the full error text is the result), a prove refused for its promise, build params for 16 parties, degree-6 seeded prove, recovery (right / other seed) from a degree-6 proof made elsewhere, build params x3, prove A/B, prove with a witness that does not open the commitment, verify valid/invalid, seeded recover, batch of two, batch abandoned at \
+    rep.rule = "(a) every sequence over the 23-op alphabet {a batch over two separately built parameter sets that agree, run with the same statements and allocation pattern as the disagreeing batch so that the next op's objects reuse its addresses, the valid pair verified under a transcript it was not made under, a batch over two parameter sets that disagree on the bit length (the error text is the result), a batch of two aggregation sizes with two different defects (the full error text is the result), a prove refused for its promise, build params for 16 parties, degree-6 seeded prove, recovery (right / other seed) from a degree-6 proof made elsewhere, build params x3, prove A/B, prove with a witness that does not open the commitment, verify valid/invalid, seeded recover, batch of two, batch abandoned at \
                 its second member (wrong round count / undecodable point), pedersen gens, drop-all} of length <= 3 (thorough 4), one fresh process per sequence, each op's serialised result against \
                 its result alone in a fresh process (and a second fresh process); (a') every op alone in a fresh process of the other build of the same sources (debug assertions and overflow checks off), against the same baseline; (b) every pair (thorough: also triples) of ops {prove A, \
                 prove B, verify valid, verify invalid, clone+drop params, build other capacity} on threads sharing one parameter object (plus a 160-member batch with two different defects racing a short verification, one preemption), \
